@@ -364,7 +364,7 @@ fn main() {
     ck.assume("a fresh BufferPool per call and no prepacked weights (both only affect where buffers come from)");
     ck.set_threads(12);
     let profile = Profile::all_ops();
-    let n = ck.pick(100_000, 1_500_000);
+    let n = ck.pick(80_000, 1_500_000);
     ck.prop_export("ops", n, || op_case(1, 2), |c| oracle_ops(&profile, c), |c| c.export(&profile));
     let biased = Profile::inplace_biased();
     ck.prop_export("ops-elementwise", n / 3, || op_case(1, 3), |c| oracle_ops(&biased, c), |c| c.export(&biased));
